@@ -143,6 +143,7 @@ structure Facts where
   globals : List Nat                  -- locations that are package-level variables (or their elements)
   guards : List (Nat × Nat × Bool)    -- declared guards: (location, mutex, reads must hold it too)
   immutable : List Nat                -- locations declared never written after package initialisation
+  mustReach : List (Nat × Nat × Bool) -- (function, callee, "after the named call succeeded the callee runs on every path to the exit")
   goStmts : Nat                       -- `go` statements inside the packages
 
 /-! ### The abstract program a table describes
@@ -305,5 +306,12 @@ only checkable form of "read-only by convention" is that nothing of that name is
 through a pointer. -/
 def ImmutableLocations (F : Facts) : Bool :=
   allIdx F.fns (fun i fn => fn.writes.all (fun w => !memN w.tgt F.immutable || memN i F.initOnly))
+
+/-- MustReach: the control-flow facts named in allow.json (`must_reach`) hold in the current
+source: once `beginEntry(n)` has succeeded, `ToEntry` calls `setEntryCache` on every path to its
+exit (directly or in a deferred closure whose body has no path around the call).  It supports
+the guard under which the cache-miss region of `ToEntry` is outside the reader claim: what
+`Process` converted is cached, so a reader's `ToEntry` on it takes the cache-hit path. -/
+def MustReach (F : Facts) : Bool := F.mustReach.all (fun r => r.2.2)
 
 end Goyang.Model.Lockset
